@@ -284,3 +284,21 @@ Definition good_file (ordp : list pname) (limit : N) (fs : fsys) (name c : str) 
   Forall (clean_line limit) (text_lines ordp (scan_lines limit c)).
 Definition excluded_lines (ordp : list pname) (limit : N) (cXs : list str) : list str :=
   concat (map (fun c => text_lines ordp (scan_lines limit c)) cXs).
+
+(* include files with their own prefix / suffix lines (C05, whole parser) *)
+Definition affix_file_line (ordp : list pname) (l : str) : Prop :=
+  exists pl, parse_line ordp (trim_left is_blank l) = Ok pl /\
+    (pl_type pl = LRegular \/ pl_type pl = LEmpty \/ pl_type pl = LComment \/ pl_type pl = LPrefix \/ pl_type pl = LSuffix).
+(* the values of its prefix (suffix) lines, in order *)
+Definition affix_values (ordp : list pname) (t : ltype) (ls : list str) : list str :=
+  flat_map (fun l => match parse_line ordp (trim_left is_blank l) with
+                     | Ok pl => if (match pl_type pl, t with LPrefix, LPrefix => true | LSuffix, LSuffix => true | _, _ => false end)
+                                then [pl_value pl] else []
+                     | _ => []
+                     end) ls.
+(* the local block the property describes, as lines *)
+Definition block_lines (pfx : list str) (body : list str) (sfx : list str) : list str :=
+  [$"##!> assemble"] ++ flat_map (fun p => [p; $"##!=>"]) pfx ++ body ++
+  (match sfx with [] => [] | _ => [$"##!=>"] end) ++ flat_map (fun s => [s; $"##!=>"]) sfx ++ [$"##!<"].
+(* an ordinary entry line that is its own left-trimmed form *)
+Definition reg_fixed (ordp : list pname) (l : str) : Prop := is_regular ordp l = true /\ trim_left is_blank l = l.
